@@ -56,6 +56,7 @@ type mSnapStore struct {
 	openFail   map[string]bool // per snapshot id: Open fails (unusable snapshot)
 	lastOpened string
 	sinks []*mSink
+	crash *vCrashCtl
 }
 
 type mSink struct {
@@ -115,6 +116,7 @@ func (s *mSink) Close() error {
 	if s.closed {
 		return nil // idempotent: takeSnapshot closes again after FSMSnapshot.Persist closed it
 	}
+	s.store.crash.tick() // the snapshot becomes durable (visible to List) at Close
 	if s.store.failOn && vFail("sink.Close") {
 		s.store.calls = append(s.store.calls, mCall{opSnapClose, s.meta.Index, s.meta.Term, false})
 		return errInjected
@@ -122,7 +124,21 @@ func (s *mSink) Close() error {
 	s.closed = true
 	s.meta.Size = s.written
 	m := s.meta
-	s.store.metas = append([]*SnapshotMeta{&m}, s.store.metas...)
+	// List returns snapshots "in descending order, with the highest index first" (SnapshotStore contract);
+	// among equal indexes the newer one comes first
+	var out []*SnapshotMeta
+	placed := false
+	for _, old := range s.store.metas {
+		if !placed && m.Index >= old.Index {
+			out = append(out, &m)
+			placed = true
+		}
+		out = append(out, old)
+	}
+	if !placed {
+		out = append(out, &m)
+	}
+	s.store.metas = out
 	s.store.calls = append(s.store.calls, mCall{opSnapClose, s.meta.Index, s.meta.Term, true})
 	return nil
 }
